@@ -56,9 +56,6 @@ Definition decide_mode (sbo : bool) (f : flags) : bool * bool :=
 
 (* ------------------------------------------------------------------------------------------ *)
 (* 2. batch size arithmetic                                                                     *)
-Definition py_floordiv (a b : Z) : result Z := if b =? 0 then Raise ZeroDivisionError else Ok (a / b).
-Definition py_mod (a b : Z) : result Z := if b =? 0 then Raise ZeroDivisionError else Ok (a mod b).
-
 (* min(batch_size, (max_params - num_params_outside_of_batch) // num_params_per_batch) *)
 Definition clamp_expr (batch_size max_params total_num_of_params num_params_per_batch : Z) : Z :=
   Z.min batch_size ((max_params - (total_num_of_params - num_params_per_batch)) / num_params_per_batch).
